@@ -11,7 +11,7 @@ import (
 func init() {
 	register(&propInfo{
 		ID:          "C16",
-		Explanation: "Origin and site analysis of reverse calls: (R16.1) the reverse-client builder allocates, inside each invocation, the client object, its request queue and the proxy struct; the queue it makes is what it stores into the connection it was given, the client's exit signal is that connection's exit signal, the proxy it provides is the one placed (under the proxy type's key) into the context it returns, which derives from the context it was given; (R16.2) the builder is invoked only on the WebSocket upgrade path, once per connection, before the connection loop starts, and its context is what the loop runs under; (R16.3) a reverse call fails instead of blocking once the connection is gone: every enqueue watches the exit signal, every loop exit raises it and fails in-flight calls; (R16.4) the client-side handler for reverse calls takes its alias table from the client configuration; (R16.5) handlers run on their own goroutine, so a handler that makes a reverse call (whose response arrives as a later frame on the same connection) cannot deadlock the frame executor. (R16.7) the reverse client's request queue is unbuffered. (R16.8) the frame executor never blocks on something only a finishing handler releases; (R16.9) the accept arm answers reverse calls and notifications picked up while the connection goes away. (R16.10) every client-handler registration is appended. (R16.11) an in-flight entry leaves the table only together with a completion, also on the response path. (R16.12) a client-handler alias option records the alias on every path. (R16.13) tables filled by options are made per configuration value.",
+		Explanation: "Origin and site analysis of reverse calls: (R16.1) the reverse-client builder allocates, inside each invocation, the client object, its request queue and the proxy struct; the queue it makes is what it stores into the connection it was given, the client's exit signal is that connection's exit signal, the proxy it provides is the one placed (under the proxy type's key) into the context it returns, which derives from the context it was given; (R16.2) the builder is invoked only on the WebSocket upgrade path, once per connection, before the connection loop starts, and its context is what the loop runs under; (R16.3) a reverse call fails instead of blocking once the connection is gone: every enqueue watches the exit signal, every loop exit raises it and fails in-flight calls; (R16.4) the client-side handler for reverse calls takes its alias table from the client configuration; (R16.5) handlers run on their own goroutine, so a handler that makes a reverse call (whose response arrives as a later frame on the same connection) cannot deadlock the frame executor. (R16.7) the reverse client's request queue is unbuffered. (R16.8) the frame executor never blocks on something only a finishing handler releases; (R16.9) the accept arm answers reverse calls and notifications picked up while the connection goes away. (R16.10) every client-handler registration is appended. (R16.11) an in-flight entry leaves the table only together with a completion, also on the response path. (R16.12) a client-handler alias option records the alias on every path. (R16.13) tables filled by options are made per configuration value. (R16.14) the socket's read limit is not derived from the option that bounds HTTP request bodies.",
 		NotDecided:  "Affinity under real client populations (follows from per-invocation allocation, not explored), correlation/error/dispatch guarantees of reverse calls (the same client and dispatcher code as forward calls: C02, C09, C11, C12 apply).",
 		Assumptions: []string{"the reverse-client builder is the function literal stored into the server configuration's builder field (type func(context.Context, *conn) (context.Context, error))"},
 		Run:         runC16,
@@ -193,6 +193,8 @@ func runC16(c *Ctx) {
 	c.acceptArmRule("R16.9")
 	c.rule("R16.8", "nested calls complete: the frame executor (which delivers the responses of reverse calls) never blocks on something only a finishing handler releases")
 	c.executorNeverWaitsForHandlers("R16.8")
+	c.ruleOpt("R16.14", "a reverse call's result of any size reaches the handler that made the call: the socket's read limit is not derived from the option that bounds HTTP request bodies")
+	c.readLimitNotRequestSize("R16.14")
 	c.rule("R16.6", "a reverse call fails once the client is gone also when it is retry-tagged: re-sends only on the wire's temporary-connection code")
 	c.retryGateRule("R16.6")
 
